@@ -19,7 +19,8 @@ MANIFEST = dict(
          "lists of any length over any element type, that this specification has the properties that make it the intended one (sort: sorted stable "
          "permutation; unique: first occurrences in order; filter/reject/partition; window/prefixes/suffixes are the slices; group restores the input; "
          "zip/ziplongest lengths; scan/fold; transpose involutive; flatten.map = flat_map; reverse; frequencies; join/split inverse; cartesian product "
-         "order; permutations/combinations/subsequences enumerate exactly the documented sets once each in the documented order). That each Rust "
+         "order; permutations/combinations/subsequences enumerate exactly the documented sets once each in the documented order; words are the "
+         "maximal non-space runs; lines/split-by-n). That each Rust "
          "builtin equals its one-liner is checked on every run by an exhaustive grid (function x list/string/vector/bytes/dict-keys/stream x lengths "
          "0..5 over alphabets with repeats and 1 vs 1.0 x parameters 0,1,len,len+1 x a family of total functions), including the kind of the result and "
          "an alias of every argument re-read after the call.",
@@ -47,7 +48,7 @@ def tok(v):
         return f"{t} {v[1]}"
     if t == "S":
         return " ".join(["S", str(len(v[1]))] + [str(ord(c)) for c in v[1]])
-    k = "t" if v[1] == "r" else v[1]
+    k = "t" if v[1] in "rzy" else v[1]
     return " ".join(["Q", k, str(len(v[2]))] + [tok(e) for e in v[2]])
 
 
@@ -95,6 +96,11 @@ def src(v):
         return f"stream([{body}])"
     if k == "r":  # elements are 1..n
         return f"(1 to {len(l)})"
+    if k == "z":  # a stream built by lazy_map
+        return f"(stream([{body}]) lazy_map (\\x -> x))"
+    if k == "y":  # a stream built by lazy_filter: the sentinel 99 is filtered out again
+        inter = ", ".join(t for e in l for t in (src(e), "99"))
+        return f"(stream([99{', ' if l else ''}{inter}]) lazy_filter (\\x -> x != 99))"
     raise ValueError(k)
 
 
@@ -137,7 +143,7 @@ def canon(v):
         return "V[" + ",".join(canon(e) for e in l) + "]"
     if k == "b":
         return "B[" + ",".join(str(e[1]) for e in l) + "]"
-    if k in "tr":
+    if k in "trzy":
         return "T[" + ",".join(canon(e) for e in l) + "]"
     if k == "d":
         return "D{" + ",".join(sorted(canon(e) + ":N" for e in l)) + "}"
@@ -439,7 +445,7 @@ def pyref(name, params, args):
     if name == "take_while": return like(x, list(itertools.takewhile(lambda e: truthy(app1(p[0], e)), l)))
     if name == "drop_while":
         r = list(itertools.dropwhile(lambda e: truthy(app1(p[0], e)), l))
-        return Q("t", r) if x[0] == "Q" and x[1] in "tr" else like(x, r)
+        return Q("t", r) if x[0] == "Q" and x[1] in "trzy" else like(x, r)
     if name == "zip": return L([L(t) for t in zip(*[elems(a) for a in args])])
     if name == "zip_with": return L([app2(p[0], a, b) for a, b in zip(elems(args[0]), elems(args[1]))])
     if name in ("ziplongest", "ziplongest_with"):
@@ -609,6 +615,8 @@ def call_src(name, p, a, nf=0):
     if name == "group_strict": return f"{x} group' {num(p[0])}"
     if name == "window": return f"{x} window {num(p[0])}"
     if name == "concat": return f"{a[0]} ++ {a[1]}"
+    if name == "concat_alias": return f"{a[0]} \u29fa {a[1]}"
+    if name == "cartesian_alias": return " \u00d7 ".join(a)
     if name == "prepend": return f"{src(p[0])} .+ {x}"
     if name == "append": return f"{x} +. {src(p[0])}"
     if name == "pair": return f"{src(p[0])} .. {src(p[1])}"
@@ -639,7 +647,7 @@ PKINDS = {
     "combinations": ["n"], "join": ["s"], "split": ["s"],
     "replicate_flip": ["v", "n"], "splitn": ["s", "n"], "str_repeat": ["n"], "str_repeat_flip": ["n"], "take_n": ["n"], "drop_n": ["n"],
 }
-MODEL_NAME = {"replicate_flip": "replicate", "str_repeat_flip": "str_repeat"}
+MODEL_NAME = {"replicate_flip": "replicate", "str_repeat_flip": "str_repeat", "concat_alias": "concat", "cartesian_alias": "cartesian"}
 
 
 def ptok(kind, v):
@@ -686,7 +694,7 @@ def seqs_of(kind, n):
         return [Q("d", list(t)) for t in itertools.combinations([I(1), I(2), S("a")], n)]
     if kind == "r":
         return [Q("r", [I(i + 1) for i in range(n)])]
-    return [Q(kind, list(t)) for t in itertools.product(ALPHA[kind], repeat=n)]
+    return [Q(kind, list(t)) for t in itertools.product(ALPHA["t" if kind in "zy" else kind], repeat=n)]
 
 
 def inputs(ctx, kind, full, sample, maxlen):
@@ -703,7 +711,7 @@ def inputs(ctx, kind, full, sample, maxlen):
             if kind == "s":
                 out.append(S("".join(ctx.rng.choice("abc") for _ in range(n))))
             else:
-                out.append(Q(kind, [ctx.rng.choice(ALPHA[kind]) for _ in range(n)]))
+                out.append(Q(kind, [ctx.rng.choice(ALPHA["t" if kind in "zy" else kind]) for _ in range(n)]))
     return out
 
 
@@ -712,7 +720,7 @@ MAPPERS = ["id", "neg", "even", "const7", "fst", "dup", "numkey"]
 COMBS = ["pair", "add", "max", "fst2", "snd2"]
 RELS = ["eq", "le", "fst2"]
 CMPS = [("cmpon", k, r) for k in ("numkey", "even", "lt2", "const7") for r in (False, True)]
-ORDERED_KINDS = ["l", "s", "v", "b", "t", "r"]
+ORDERED_KINDS = ["l", "s", "v", "b", "t", "r", "z", "y"]
 # functions whose result does not depend on iteration order (up to multiset): usable on dict keys
 DICT_OK = {"map": 1, "filter": 1, "reject": 1, "partition": 2, "count": 0, "any": 0, "all": 0, "count_truthy": 0, "count_eq": 0,
            "any_truthy": 0, "all_truthy": 0, "sum": 0, "product": 0, "sum_f": 0, "product_f": 0, "min": 0, "max": 0, "sort": 0,
@@ -756,10 +764,11 @@ UNARY_ALL_KINDS = ["map", "filter", "reject", "partition", "flat_map", "each", "
 def gen_cases(ctx):
     cases = []
     quick = ctx.quick()
-    full = {"l": 3, "s": 3, "v": 3, "b": 3, "t": 2, "r": 5, "d": 3} if quick else {"l": 4, "s": 4, "v": 4, "b": 4, "t": 3, "r": 8, "d": 3}
+    full = ({"l": 3, "s": 3, "v": 3, "b": 3, "t": 2, "r": 5, "d": 3, "z": 1, "y": 1} if quick else
+            {"l": 4, "s": 4, "v": 4, "b": 4, "t": 3, "r": 8, "d": 3, "z": 2, "y": 2})
     sample = 6 if quick else 30
     maxlen = 5 if quick else 8
-    pools = {k: inputs(ctx, k, full[k], sample, maxlen) for k in ["l", "s", "v", "b", "t", "r", "d"]}
+    pools = {k: inputs(ctx, k, full[k], sample if k not in "zy" else 3, maxlen) for k in ["l", "s", "v", "b", "t", "r", "d", "z", "y"]}
     for name in UNARY_ALL_KINDS:
         for kind in ORDERED_KINDS + (["d"] if name in DICT_OK else []):
             pool = pools[kind]
@@ -770,6 +779,8 @@ def gen_cases(ctx):
                     continue
                 ps = params_for(name, x, ctx)
                 keep = (2 if n > 2 else 4 if n == 2 and kind != "l" else 99) if quick else (3 if n > 3 else 99)
+                if kind in "zy":
+                    keep = 2 if quick else 3
                 if heavy and len(ps) > keep:
                     # thin out the family on longer inputs: rotate through it (every member still meets every length)
                     ps = [ps[(len(cases) + i) % len(ps)] for i in range(keep)]
@@ -807,6 +818,38 @@ def gen_cases(ctx):
             for nf in range(len(NUMFORMS)):
                 cases.append(make_case("replicate", [v, k], [], nf=nf))
                 cases.append(make_case("replicate_flip", [v, k], [], nf=nf))
+    # ---- negative counts: the documentation says nothing about them, so only "no panic, no hang, arguments
+    # untouched" is required (cmp = nocrash); every representation of the count
+    def neg(k):
+        return f"(0-{k})"
+    for k in (1, 2):
+        for nf in range(len(NUMFORMS)):
+            for name, ps_, args_ in (("replicate", [I(7), k], []), ("replicate_flip", [S("a"), k], []),
+                                     ("str_repeat", [k], [S("ab")]), ("splitn", ["-", k], [S("a-b-c")]),
+                                     ("repeat_concat", [k], [L([I(1), I(2)])]), ("window", [k], [L([I(1), I(2), I(3)])]),
+                                     ("group_n", [k], [S("abc")]), ("group_strict", [k], [Q("v", [I(1), I(2)])]),
+                                     ("power", [k], [L([I(1), I(2)])]), ("combinations", [k], [Q("t", [I(1), I(2)])])):
+                ph = 770 + k   # placeholder count, rewritten in the program text as the negative number
+                c_ = make_case(name, [ph if v == k and not isinstance(v, tuple) else v for v in ps_], args_, "nocrash", nf=nf)
+                c_["src"] = c_["src"].replace(NUMFORMS[nf](ph), NUMFORMS[nf](neg(k)))
+                c_["params"] = ps_
+                assert neg(k) in c_["src"], c_["src"]
+                c_["model"] = None
+                cases.append(c_)
+    # ---- sort of nested lists: lexicographic where every pair is comparable (documented: "sequences are
+    # compared lexicographically"); with an incomparable pair somewhere only no-crash is required
+    nrows = [L([]), L([I(1)]), L([I(1), I(2)]), L([F(1)]), L([I(2)]), L([S("a")]), L([I(1), S("a")]), L([L([I(1)])]), L([L([])])]
+    nested = [list(t) for n in range(0, 4) for t in itertools.product(nrows, repeat=n) if n <= 2 or ctx.rng.random() < (0.25 if quick else 1.0)]
+    for rws in nested:
+        ok = True
+        try:
+            for a_ in rws:
+                for b_ in rws:
+                    vcmp(a_, b_)
+        except Incomparable:
+            ok = False
+        for name, ps_ in (("sort", []), ("min", []), ("max", []), ("sort_on", ["id"])):
+            cases.append(make_case(name, ps_, [L(rws)], "exact" if ok else "nocrash"))
     # ---- functions without a parameter: exhaustive over 3-symbol alphabets at the longer lengths too
     paramless = [n for n in UNARY_ALL_KINDS if not PKINDS.get(n)]
     numeric = {"sum", "product", "min", "max", "sort"}
@@ -854,12 +897,12 @@ def gen_cases(ctx):
     for ka, kb in kind_pairs:
         for x in sm[ka]:
             for y in sm[kb]:
-                for name in ("zip", "ziplongest", "cartesian"):
+                for name in ("zip", "ziplongest", "cartesian", "cartesian_alias"):
                     cases.append(make_case(name, [], [x, y]))
                 for g in (COMBS if (ka, kb) == ("l", "l") else [COMBS[(len(cases) + i) % len(COMBS)] for i in range(2)]):
                     cases.append(make_case("zip_with", [g], [x, y]))
                     cases.append(make_case("ziplongest_with", [g], [x, y]))
-    tiny = {k: [v for v in sm[k] if (len(v[1]) if v[0] == "S" else len(v[2])) <= 2][:6] + sm[k][-1:] for k in sm}
+    tiny = {k: [v for v in sm[k] if (len(v[1]) if v[0] == "S" else len(v[2])) <= 2][:(4 if quick else 6)] + sm[k][-1:] for k in sm}
     for ka, kb, kc in [("l", "l", "l"), ("l", "s", "b"), ("t", "v", "l"), ("s", "r", "l")]:
         for x in tiny[ka]:
             for y in tiny[kb]:
@@ -871,6 +914,7 @@ def gen_cases(ctx):
         for x in sm[k]:
             for y in sm[k]:
                 cases.append(make_case("concat", [], [x, y]))
+                cases.append(make_case("concat_alias", [], [x, y]))
     # ---- flatten / transpose: lists (and streams) of rows of mixed kinds, including rows that are not iterable
     rows = [L([]), L([I(1)]), L([I(1), F(1)]), L([I(2), S("a"), I(1)]), S(""), S("ab"), Q("v", [I(1), I(2)]), Q("b", [I(3)]),
             Q("t", [I(1), I(2), I(2)]), Q("r", [I(1), I(2)]), L([L([I(1)]), I(2)])]
@@ -988,10 +1032,14 @@ def evaluate(ctx, cases, runner):
     for i in again:
         res[i] = common.run_prog([cases[i]["src"]], timeout=60.0, fuel=300_000)[0]
     t1 = time.time()
-    mres = common.run_model(runner, [c["model"] for c in cases]) if runner else [None] * len(cases)
+    with_model = [i for i, c in enumerate(cases) if c["model"] is not None]
+    mres = [None] * len(cases)
+    if runner:
+        for i, m in zip(with_model, common.run_model(runner, [cases[i]["model"] for i in with_model])):
+            mres[i] = m
     common.log(f"[C13] {len(cases)} cases: implementation {t1 - t0:.1f}s, specification runner {time.time() - t1:.1f}s")
     bad = []
-    stats = {"ref_vs_spec_disagree": 0, "alias_checked": 0, "undocumented_form_rejected": 0}
+    stats = {"ref_vs_spec_disagree": 0, "alias_checked": 0, "undocumented_form_rejected": 0, "nocrash_only": 0}
     for c, r, m in zip(cases, res, mres):
         st = r.get("status")
         c["impl_status"] = st
@@ -1010,6 +1058,14 @@ def evaluate(ctx, cases, runner):
         else:
             obs = "hang" if st == "err" else st   # fuel exhausted: the call does not terminate in 300k evaluation steps
         c["impl"] = obs
+        if mode == "nocrash":
+            stats["nocrash_only"] += 1
+            c["spec"] = c["ref"] = None
+            if obs in ("panic", "hang", "abort", "parse", "badjson", "sig", "empty"):
+                bad.append(("property", c, r, "the call did not return (panic/hang/abort) on a finite input"))
+            elif not alias_ok:
+                bad.append(("property", c, r, "an alias of an argument read after the call no longer shows the value it was given"))
+            continue
         # --- Coq spec
         exp = None
         if m is not None:
@@ -1023,7 +1079,7 @@ def evaluate(ctx, cases, runner):
         c["spec"] = exp
         # --- Python reference
         try:
-            v = pyref(c["fn"], c["params"], c["args"])
+            v = pyref(MODEL_NAME.get(c["fn"], c["fn"]), c["params"], c["args"])
             if v is None:
                 ref = None
             else:
@@ -1107,14 +1163,14 @@ def run(ctx):
     cases = gen_cases(ctx)
     bad, stats = evaluate(ctx, cases, runner)
     report(ctx, bad)
-    nt = {(c["model"], c.get("nf", 0)) for c in cases if nontrivial(c)}
+    nt = {(c["model"] or c["src"], c.get("nf", 0)) for c in cases if nontrivial(c)}
     by_fn = {}
     for c in cases:
         by_fn[c["fn"]] = by_fn.get(c["fn"], 0) + 1
     by_kind = {}
     for c in cases:
         for a in c["args"]:
-            k = "string" if a[0] == "S" else {"l": "list", "v": "vector", "b": "bytes", "d": "dict-keys", "t": "stream(list)", "r": "range stream"}[a[1]]
+            k = "string" if a[0] == "S" else {"l": "list", "v": "vector", "b": "bytes", "d": "dict-keys", "t": "stream(list)", "r": "range stream", "z": "lazy_map stream", "y": "lazy_filter stream"}[a[1]]
             by_kind[k] = by_kind.get(k, 0) + 1
     outcomes = {}
     for c in cases:
@@ -1133,7 +1189,9 @@ def run(ctx):
         "count_written_as": {["literal", "n // 1", "2^64 - 2^64 + n", "n << 0", "n ^ 1"][k]: sum(1 for c in cases if "n" in PKINDS.get(c["fn"], []) and c.get("nf", 0) == k) for k in range(5)},
         "aliases_reread": stats["alias_checked"], "reference_vs_spec_disagreements": stats["ref_vs_spec_disagree"],
         "undocumented_form_rejected_and_skipped": stats["undocumented_form_rejected"],
+        "no_crash_only_cases": stats["nocrash_only"],
         "spec_compared": sum(1 for c in cases if c.get("spec") is not None),
+        "aliases_and_operator_forms": {k: sum(1 for c in cases if c["fn"] == k) for k in ("concat_alias", "cartesian_alias", "replicate_flip", "str_repeat_flip")},
         "python_reference_compared": sum(1 for c in cases if c.get("ref") is not None),
     })
     ctx.assumptions += ["elements are drawn from ints, integral floats, one-character strings and nested lists of these; other numeric types are C07/C08's",
@@ -1155,6 +1213,8 @@ def replay(ctx, rep):
     for k, v in zip(PKINDS.get(c["fn"], []), c["params"]):
         params.append(val_of_json(v) if k == "v" else (tuple(v) if isinstance(v, list) else v))
     case = make_case(c["fn"], params, args, c.get("cmp", "exact"), c.get("nf", 0))
+    if c.get("cmp") == "nocrash":   # the program text is the case (negative counts are written into it)
+        case["src"], case["model"] = c["src"], None
     bad, _ = evaluate(ctx, [case], runner)
     report(ctx, bad)
     print(json.dumps({"program": case["src"], "implementation": case.get("impl"), "coq_spec": case.get("spec"),
